@@ -75,35 +75,17 @@ def escape_rules(ctx, rule):
     return wt, tt
 
 
-def run(ctx):
+def escape_reader_rules(ctx, rule):
+    """how tokenise_escape reads an escape (shared: C13.2, C11.6): backslash-DDD = three decimal digits in order with a u8
+    range check, backslash-X (X an ASCII non-digit) = X itself, at most three characters consumed"""
     prog = ctx.prog
-    ctx.rule("C13.1", "writer escape classes vs tokeniser character classes, tabulated over all 256 octets x {quoted, unquoted} and 4 states x 130 characters (condition tables extracted from MIR)")
-    ctx.rule("C13.2", "backslash-DDD: three digits written (hundreds, tens, units), three digits read as d1*100+d2*10+d3 with a u8 range check; backslash-X yields X")
-    ctx.rule("C13.3", "RecordType Display and FromStr tables are mutually inverse; TYPE<n> both ways")
-    ctx.rule("C13.4", "every RDATA variant the writer prints has a parser arm with the same number, order and kinds of fields")
-    ctx.rule("C13.5", "$ORIGIN / relative-name conditions agree between header, owner names and RDATA names; ztoz = deserialise then serialise")
-    ctx.decline("zone == parse(print(zone)) for every zone; a label that is exactly `@` or starts with `*` is re-read as the apex / a wildcard (specials resolved after un-escaping: no escape-set rule can see it)")
-
-    wt, tt = escape_rules(ctx, "C13.1")
-    so = prog.fn(ZS + "serialise_octets")
-    sor = A.Resolver(so)
-    soc = A.Conds(so, sor)
-    quotes = [(b, sor.call_expr(t, b)) for b, t in A.call_blocks(so, A.name_endswith("String::push")) if A.peel(sor.call_expr(t, b)[2][1])[2] == 34]
-    loop_blocks = set().union(*[bd for _, bd in so.loops()])
-    ok = len(quotes) == 2 and all(soc.guarded(b, lambda fc: fc[0] in ("truth", "ltruth") and (fc[0] == "ltruth" and fc[1] == 2 or fc[0] == "truth" and A.peel(fc[1]) == ("param", 2)) and fc[2] is True)[0] for b, e in quotes) \
-        and all(b not in loop_blocks for b, e in quotes)
-    ctx.check(ok, "C13.1", "quoted:delimiters", "quoted output is wrapped in one pair of quotes", "quote delimiters changed", so.loc())
-
-    # ---------------------------------------------------------------- C13.2
-    ddd_ok = all(cls[1] == [48 + v // 100, 48 + (v // 10) % 10, 48 + v % 10] for (v, q), cls in wt.items() if cls[0] == "ddd")
-    ctx.check(ddd_ok, "C13.2", "writer:ddd-digits", "backslash-DDD digits are hundreds, tens, units of the octet (tabulated for every escaped octet)", "backslash-DDD digits are not the decimal digits of the octet", so.loc())
     te = prog.find("zones::deserialise::tokenise_escape")
     ter = A.Resolver(te)
     tec = A.Conds(te, ter)
     nexts = [b for b, t in te.calls() if (t.get("callee") or "").endswith("Iterator::next")]
     nexts.sort(key=lambda x: sum(1 for y in nexts if te.dominates(y, x)))
     oks = [(b, A.peel(e)) for b, e in A.return_exprs(te, ter) if A.peel(e)[0] == "agg" and A.peel(e)[2] == "Ok"]
-    ctx.floor("C13.2", "Ok returns of tokenise_escape", len(oks), 2, exact=True)
+    ctx.floor(rule, "Ok returns of tokenise_escape", len(oks), 2, exact=True)
     def digit_of(x):
         x = A.peel(x)
         if x[0] == "field" and x[1][0] == "downcast" and x[1][2] == "Some":
@@ -141,9 +123,35 @@ def run(ctx):
             g1, _ = tec.guarded(b, lambda fc: fc[0] == "call" and fc[1].endswith("char>::is_ascii") and fc[3] is True)
             g2, _ = tec.guarded(b, lambda fc: fc[0] == "is" and fc[1] == "None" and A.peel(fc[2])[0] == "call" and A.peel(fc[2])[1].endswith("to_digit"))
             seen_x = bool(src) and src[0][3][1] == nexts[0] and g1 and g2
-    ctx.check(seen_ddd, "C13.2", "reader:ddd", "three consecutive digits d1 d2 d3 -> u8::try_from(d1*100 + d2*10 + d3)", "backslash-DDD is not read as three decimal digits in order", te.loc())
-    ctx.check(seen_x, "C13.2", "reader:backslash-char", "backslash-X (X an ASCII non-digit) -> X", "backslash-X is not read back as X", te.loc())
-    ctx.check(len(nexts) == 3, "C13.2", "reader:width", "an escape consumes at most three characters", "escape reads %d characters" % len(nexts), te.loc())
+    ctx.check(seen_ddd, rule, "reader:ddd", "three consecutive digits d1 d2 d3 -> u8::try_from(d1*100 + d2*10 + d3)", "backslash-DDD is not read as three decimal digits in order", te.loc())
+    ctx.check(seen_x, rule, "reader:backslash-char", "backslash-X (X an ASCII non-digit) -> X", "backslash-X is not read back as X", te.loc())
+    ctx.check(len(nexts) == 3, rule, "reader:width", "an escape consumes at most three characters", "escape reads %d characters" % len(nexts), te.loc())
+
+
+
+def run(ctx):
+    prog = ctx.prog
+    ctx.rule("C13.1", "writer escape classes vs tokeniser character classes, tabulated over all 256 octets x {quoted, unquoted} and 4 states x 130 characters (condition tables extracted from MIR)")
+    ctx.rule("C13.2", "backslash-DDD: three digits written (hundreds, tens, units), three digits read as d1*100+d2*10+d3 with a u8 range check; backslash-X yields X")
+    ctx.rule("C13.3", "RecordType Display and FromStr tables are mutually inverse; TYPE<n> both ways")
+    ctx.rule("C13.4", "every RDATA variant the writer prints has a parser arm with the same number, order and kinds of fields")
+    ctx.rule("C13.5", "$ORIGIN / relative-name conditions agree between header, owner names and RDATA names; ztoz = deserialise then serialise")
+    ctx.decline("zone == parse(print(zone)) for every zone; a label that is exactly `@` or starts with `*` is re-read as the apex / a wildcard (specials resolved after un-escaping: no escape-set rule can see it)")
+
+    wt, tt = escape_rules(ctx, "C13.1")
+    so = prog.fn(ZS + "serialise_octets")
+    sor = A.Resolver(so)
+    soc = A.Conds(so, sor)
+    quotes = [(b, sor.call_expr(t, b)) for b, t in A.call_blocks(so, A.name_endswith("String::push")) if A.peel(sor.call_expr(t, b)[2][1])[2] == 34]
+    loop_blocks = set().union(*[bd for _, bd in so.loops()])
+    ok = len(quotes) == 2 and all(soc.guarded(b, lambda fc: fc[0] in ("truth", "ltruth") and (fc[0] == "ltruth" and fc[1] == 2 or fc[0] == "truth" and A.peel(fc[1]) == ("param", 2)) and fc[2] is True)[0] for b, e in quotes) \
+        and all(b not in loop_blocks for b, e in quotes)
+    ctx.check(ok, "C13.1", "quoted:delimiters", "quoted output is wrapped in one pair of quotes", "quote delimiters changed", so.loc())
+
+    # ---------------------------------------------------------------- C13.2
+    ddd_ok = all(cls[1] == [48 + v // 100, 48 + (v // 10) % 10, 48 + v % 10] for (v, q), cls in wt.items() if cls[0] == "ddd")
+    ctx.check(ddd_ok, "C13.2", "writer:ddd-digits", "backslash-DDD digits are hundreds, tens, units of the octet (tabulated for every escaped octet)", "backslash-DDD digits are not the decimal digits of the octet", so.loc())
+    escape_reader_rules(ctx, "C13.2")
 
     # ---------------------------------------------------------------- C13.3
     disp = prog.fn("<%sRecordType as std::fmt::Display>::fmt" % T)
